@@ -29,10 +29,18 @@ def main():
         pool._init()
         viol = mod.replay(rp["case"])
         if viol:
+            from mc.engine.report import load_known
+
+            known = {k["fingerprint"]: k["what"] for k in load_known().get("findings", []) if k["property"] == a.pid}
+            new = [v for v in viol if v["fp"] not in known]
             for v in viol:
                 print("replay: [%s] %s" % (v["fp"], v["what"][:600]))
-            print("VIOLATION property=%s replay=%s" % (a.pid, os.path.abspath(a.replay)))
-            sys.exit(1)
+            for fp in sorted(set(v["fp"] for v in viol if v["fp"] in known)):
+                print("KNOWN-FINDING: property=%s %s [%s]" % (a.pid, known[fp], fp))
+            if new:
+                print("VIOLATION property=%s replay=%s" % (a.pid, os.path.abspath(a.replay)))
+                sys.exit(1)
+            sys.exit(0)
         print("replay: property held on this case")
         sys.exit(0)
     only = a.only.split(",") if a.only else None
